@@ -2,6 +2,7 @@
 
 import typing
 import typing as t
+import unicodedata
 
 from . import nodes
 from .exceptions import TemplateAssertionError
@@ -43,6 +44,11 @@ _math_nodes: dict[str, type[nodes.Expr]] = {
     "floordiv": nodes.FloorDiv,
     "mod": nodes.Mod,
 }
+
+
+def _same_identifier(a: str, b: str) -> bool:
+    """Python compares identifiers after NFKC normalization."""
+    return unicodedata.normalize("NFKC", a) == unicodedata.normalize("NFKC", b)
 
 
 class Parser:
@@ -408,6 +414,8 @@ class Parser:
                 self.stream.expect("comma")
             arg = self.parse_assign_target(name_only=True)
             arg.set_ctx("param")
+            if any(_same_identifier(arg.name, a.name) for a in args):
+                self.fail(f"duplicate argument {arg.name!r} in signature", arg.lineno)
             if self.stream.skip_if("assign"):
                 defaults.append(self.parse_expression())
             elif defaults:
@@ -906,6 +914,8 @@ class Parser:
                     # Parsing a kwarg
                     ensure(dyn_kwargs is None)
                     key = self.stream.current.value
+                    if any(_same_identifier(key, k.key) for k in kwargs):
+                        self.fail(f"keyword argument {key!r} repeated")
                     self.stream.skip(2)
                     value = self.parse_expression()
                     kwargs.append(nodes.Keyword(key, value, lineno=value.lineno))
